@@ -142,6 +142,64 @@ def p2_refuses_early(binfns, consts):
     return O._finish(ob, t0, sorted(set(bad)))
 
 
+def p8_options(binfns, consts):
+    ob = O._ob('c15_mir_command_line_options_reach_the_rules', 'qmluic-cli::generate_ui (src/main.rs)', 'all paths that prepare a build context',
+               'file names are lower-cased iff --no-lowercase-file-name is absent, and the mode is Reject iff --no-dynamic-binding is given (Generate otherwise)')
+    t0 = time.time()
+    bad = []
+    try:
+        fn = M.find_fn(binfns, r'^generate_ui$')
+        af = O.struct_fields('src/main.rs', 'GenerateUiArgs')
+        il, idn = af.index('no_lowercase_file_name'), af.index('no_dynamic_binding')
+        rf = O.struct_fields('lib/src/qtname.rs', 'FileNameRules')
+
+        def model(c, it_, p):
+            r = c04.forking_try(c, it_, p)
+            if r is not None:
+                return r
+            if c.callee.endswith('as Iterator>::next'):
+                if not hasattr(p, 'heap'):
+                    p.heap = {}
+                key = '#loop:' + canon(c08.deref(c.args[0]))
+                k = p.heap.get(key, 0)
+                p.heap[key] = k + 1
+                return M.Adt('Option::Some', [M.Opaque(f'item#{c.seq}')]) if k < 1 else M.Adt('Option::None', [])
+            return None
+        it = M.Interp(fn, consts, call_model=model)
+        it.max_depth = 3000
+        n = 0
+        for q in it.run(max_paths=5000):
+            if q.end != 'return' or M.check(q.pc) == 'unsat':
+                continue
+            for c in q.calls:
+                if not c.callee.split('::<')[0].endswith('BuildContext::prepare'):
+                    continue
+                n += 1
+                rules, mode = c08.deref(c.args[1]), c08.deref(c.args[2])
+                if not (isinstance(rules, M.Adt) and rules.path.endswith('FileNameRules') and len(rules.fields) == len(rf)):
+                    bad.append(f'the file name rules are not built in place: {canon(rules)[:80]}')
+                    continue
+                low = rules.fields[rf.index('lowercase')]
+                if canon(low) != f'Not(_2.*.{il})':
+                    bad.append(f'lowercase is {canon(low)[:60]}, expected !args.no_lowercase_file_name')
+                flag = it.leaf(f'_2.*.{idn}', 'bool')
+                kind = mode.path.split('::')[-1] if isinstance(mode, M.Adt) else canon(mode)
+                if kind == 'Reject':
+                    O._unsat(q.pc + [z3.Not(flag)], bad, 'Reject mode is selected without --no-dynamic-binding')
+                elif kind == 'Generate':
+                    O._unsat(q.pc + [flag], bad, 'Generate mode is selected although --no-dynamic-binding is given')
+                else:
+                    bad.append(f'generate-ui selects the mode {kind}')
+        if n == 0:
+            bad.append('no path prepares a build context (stale)')
+        ob['contexts'] = n
+    except (M.MirError, ValueError) as e:
+        O._finish(ob, t0, ['MIR: ' + str(e)], unknown=True)
+        ob['detail'] = 'MIR: ' + str(e)
+        return ob
+    return O._finish(ob, t0, sorted(set(bad))[:5])
+
+
 def p3_file_names(fns, consts):
     ob = O._ob('c15_mir_file_name_rules', 'qtname::FileNameRules::{type_name_to_ui_name, type_name_to_ui_support_cxx_header_name, apply_case_change}',
                'every type name and header suffix (z3 strings), both values of `lowercase`; format! decoded from the MIR template; make_ascii_lowercase as an uninterpreted function',
@@ -450,7 +508,7 @@ def replay(workdir):
 def run(res, args):
     fns, consts = O.load()
     binfns = M.parse_functions(M.dump_mir_bin())
-    obs = [p1_filter(binfns, consts), p2_refuses_early(binfns, consts), p3_file_names(fns, consts)] + p45_paths_and_compare(binfns, consts) + [p6_atomic_protocol(binfns, consts), p7_every_output_considered(binfns, consts)]
+    obs = [p1_filter(binfns, consts), p2_refuses_early(binfns, consts), p3_file_names(fns, consts)] + p45_paths_and_compare(binfns, consts) + [p6_atomic_protocol(binfns, consts), p7_every_output_considered(binfns, consts), p8_options(binfns, consts)]
 
     def rp(ob, d):
         rep, info = replay(d)
